@@ -24,14 +24,15 @@ REPO = os.environ.get("VERIF_REPO", "/repo")
 SCRATCH = os.environ.get("VERIF_SCRATCH", "/var/tmp/verif-libcbor")
 JOBS = int(os.environ.get("VERIF_JOBS", "16"))
 CC = os.environ.get("VERIF_CC", "gcc")
-BUILD_VERSION = "3"
+BUILD_VERSION = "4"
 
 FLAVOURS = {
     # name: (lib cflags, harness cflags, link flags)
-    "asan-full": ("-O1 -g -fno-omit-frame-pointer -fsanitize=address,undefined -fno-sanitize-recover=all -DDEBUG=true",
+    # -fsanitize=float-cast-overflow is undefined behaviour (C11 6.3.1.4) that gcc's "undefined" group leaves out
+    "asan-full": ("-O1 -g -fno-omit-frame-pointer -fsanitize=address,undefined -fsanitize=float-cast-overflow -fno-sanitize-recover=all -DDEBUG=true",
                   "-O1 -g -fno-omit-frame-pointer -fsanitize=address,undefined -fno-sanitize-recover=all",
                   "-fsanitize=address,undefined"),
-    "asan": ("-O1 -g -fno-omit-frame-pointer -fsanitize=address,undefined -fno-sanitize=nonnull-attribute -fno-sanitize-recover=all -DDEBUG=true",
+    "asan": ("-O1 -g -fno-omit-frame-pointer -fsanitize=address,undefined -fsanitize=float-cast-overflow -fno-sanitize=nonnull-attribute -fno-sanitize-recover=all -DDEBUG=true",
              "-O1 -g -fno-omit-frame-pointer -fsanitize=address,undefined -fno-sanitize=nonnull-attribute -fno-sanitize-recover=all",
              "-fsanitize=address,undefined"),
     "tsan": ("-O1 -g -fsanitize=thread -DDEBUG=true", "-O1 -g -fsanitize=thread", "-fsanitize=thread"),
@@ -51,11 +52,15 @@ FLAVOURS = {
     # consults such a macro without testing that it exists takes whatever branch "0 == 0" selects
     "bare-O2": ("-O2 -g -DDEBUG=true -U__BYTE_ORDER__ -U__ORDER_BIG_ENDIAN__ -U__ORDER_LITTLE_ENDIAN__ -U__ORDER_PDP_ENDIAN__ -U__FLOAT_WORD_ORDER__", "-O2 -g", ""),
     "clang-O2": ("-O2 -g -DDEBUG=true", "-O2 -g -Wno-unknown-warning-option -Wno-gnu-zero-variadic-macro-arguments", ""),
-    "ubsan-O2": ("-O2 -g -fsanitize=undefined -fno-sanitize=nonnull-attribute -fno-sanitize-recover=all -DDEBUG=true",
+    "ubsan-O2": ("-O2 -g -fsanitize=undefined -fsanitize=float-cast-overflow -fno-sanitize=nonnull-attribute -fno-sanitize-recover=all -DDEBUG=true",
                  "-O2 -g -fsanitize=undefined -fno-sanitize=nonnull-attribute -fno-sanitize-recover=all", "-fsanitize=undefined"),
     # plain-O2 objects, linked with --wrap so any direct libc allocation call made by libcbor is seen
     "wrap": ("-O2 -g -DDEBUG=true", "-O2 -g -DVH_WRAP=1",
-             "-Wl,--wrap=malloc,--wrap=calloc,--wrap=realloc,--wrap=free"),
+             "-Wl,--wrap=malloc,--wrap=calloc,--wrap=realloc,--wrap=free,--wrap=reallocarray,--wrap=posix_memalign,--wrap=aligned_alloc,--wrap=memalign,--wrap=valloc,--wrap=strdup,--wrap=strndup"),
+    # the same, with the library compiled the way projects that vendor it often compile everything: feature-test macros
+    # and fortification defined globally (code under #ifdef _GNU_SOURCE / __USE_MISC / _FORTIFY_SOURCE exists only here)
+    "vendored": ("-O2 -g -DDEBUG=true -D_GNU_SOURCE -D_DEFAULT_SOURCE -D_FILE_OFFSET_BITS=64 -D_REENTRANT -D_FORTIFY_SOURCE=2", "-O2 -g -DVH_WRAP=1",
+                 "-Wl,--wrap=malloc,--wrap=calloc,--wrap=realloc,--wrap=free,--wrap=reallocarray,--wrap=posix_memalign,--wrap=aligned_alloc,--wrap=memalign,--wrap=valloc,--wrap=strdup,--wrap=strndup"),
     # library as a shared object (writable-segment snapshot, C17)
     "pic-so": ("-O2 -g -fPIC -DDEBUG=true", "-O2 -g -DVH_PICSO=1", ""),
     # clang MemorySanitizer: library and harness are the whole program (plain C, only libc/libm outside), so every
